@@ -6,8 +6,6 @@ import (
 	"bytes"
 	"fmt"
 	"io"
-	"os"
-	"strconv"
 	"strings"
 	"sync"
 	"testing"
@@ -1155,10 +1153,6 @@ func TestVerif_C53_Mem(t *testing.T) {
 		})
 	}
 	full := func(h int) []c53Op { return append(c53Ops(h), c53SliceOps()...) }
-	if d := c53EnvInt("C53_CORE_DEPTH", 0); d > 0 { // experiment knob
-		run("core-deep", c53Core(full(3)), 3, d, 100)
-		return
-	}
 	if r.Thorough() {
 		run("all-ops/4-handles", full(4), 4, 6, 1000)
 		run("all-ops/3-handles", full(3), 3, 7, 1000)
@@ -1199,11 +1193,3 @@ func c53Core(ops []c53Op) []c53Op {
 	return out
 }
 
-func c53EnvInt(name string, def int) int {
-	if v := os.Getenv(name); v != "" {
-		if n, err := strconv.Atoi(v); err == nil {
-			return n
-		}
-	}
-	return def
-}
